@@ -1146,7 +1146,14 @@ func ruleRelaySync(r *Run) {
 						v = kv.Value
 					}
 					c := r.P.Canon(h, v)
-					if c != "recv" && c != "recv.method:send" && c != "recv.method:sendMsg" {
+					okElt := c == "recv" || c == "recv.method:send" || c == "recv.method:sendMsg"
+					if se, isSel := ast.Unparen(v).(*ast.SelectorExpr); isSel && !okElt && strings.HasPrefix(c, "recv.method:") {
+						// a method value of the handler: the queueing methods, whatever they are called
+						if f, isF := h.Info().Uses[se.Sel].(*types.Func); isF && (f == r.fn(pkgWS, "handler", "send") || f == r.fn(pkgWS, "handler", "sendMsg")) {
+							okElt = true
+						}
+					}
+					if !okElt {
 						ok2 = false
 					}
 				}
@@ -1260,9 +1267,15 @@ func ruleIDSources(r *Run) {
 						case "Participant":
 							c := r.P.Canon(holder, litField(v, "ID"))
 							okSrc := false
-							if call, isCall := ast.Unparen(litField(v, "ID")).(*ast.CallExpr); isCall {
-								if f, _ := calleeObj(info, call).(*types.Func); f != nil && funcName(f) == "models.(*Session).NewParticipantID" {
-									okSrc = r.isJoinLocalSession(holder, recvExpr(call))
+							idExpr, idFn := ast.Unparen(litField(v, "ID")), holder
+							// a constructor's parameter stands for the argument it was called with
+							if _, isID := idExpr.(*ast.Ident); isID {
+								bfn, bx := resolveBound(idFn, idExpr)
+								idFn, idExpr = bfn, ast.Unparen(bx)
+							}
+							if call, isCall := idExpr.(*ast.CallExpr); isCall {
+								if f, _ := calleeObj(idFn.Info(), call).(*types.Func); f != nil && funcName(f) == "models.(*Session).NewParticipantID" {
+									okSrc = r.isJoinLocalSession(idFn, recvExpr(call))
 								}
 							}
 							key := fmt.Sprintf("P|%s|%d|%s|%v", where, v.Pos(), c, okSrc)
